@@ -17,9 +17,10 @@ def main(tier, replay=None):
         dict(scn="c02", name="failing-injections", opts=["family=failing", "msgs=l1"] + common, bounds="1,0,1,0", total=2),
         dict(scn="c02", name="triple-bounce-and-number-reuse", opts=["family=interleave", "msgs=dbl+l1b+empty", "inject=drain"] + common, bounds="0,0,%d,2" % (0 if q else 1), total=2 if q else 3),
         dict(scn="c02", name="hung-injector-24h-36h", opts=["family=stale", "msgs=l1", "maxticks=260"] + common, bounds="0,0,%d,0" % (0 if q else 1), total=1),
+        dict(scn="c02", name="hung-injector-clock-set-back", opts=["family=stale", "msgs=l1", "maxticks=20", "clockback=1", "signals=2", "verdicts=K", "reorder=1"], bounds="0,0,0,2", total=2),
         dict(scn="c02", name="second-daemon-instance", opts=["family=second", "msgs=l1"] + common, bounds="0,0,0,1", total=1),
         dict(scn="c02", name="second-daemon-instance-lock-error", opts=["family=second", "msgs=l1"] + common, bounds="0,1,0,1", total=2),
-        dict(scn="c02", name="one-failing-call-in-daemon-or-cleaner", opts=["family=interleave", "msgs=l1r1", "inject=seq", "verdicts=KD", "reorder=1", "signals=0"], bounds="0,1,0,%d" % (1 if q else 2), total=2 if q else 3, deadline=1200),
+        dict(scn="c02", name="one-failing-call-in-daemon-or-cleaner", opts=["family=interleave", "msgs=l1r1", "inject=seq", "verdicts=KD", "reorder=1", "signals=0", "queuerefuse=1"], bounds="0,1,0,%d" % (1 if q else 2), total=2 if q else 3, deadline=1200),
         dict(scn="c02", name="40h-old-backlog", opts=["family=backlog", "backlog=12"] + common, bounds="0,0,0,0", total=0),
     ]
     run_families(res, "C02", tier, fams)
